@@ -77,39 +77,73 @@ def meq {α : Type} [BEq α] (a b : List α) : Bool := a.length == b.length && m
     Not for the two root branches of a rooted tree. -/
 def exactRegion (b : T) (e : Ent) : Bool := !(b.rooted && e.root)
 
+/- The DOCUMENTED criteria and the sentinel.
+   `gotree collapse length`: "All internal branches with length <= threshold are removed";
+   `CollapseShortBranches`: "Collapses (removes) the branches having length <= length threshold".
+   Neither says what a branch WITHOUT a length is.  (For supports the documentation is explicit:
+   "support < support threshold && support != NIL_SUPPORT (exists)"; depth and explicit branch lists have
+   no absent value.)  The code compares the stored sentinel −1, so a length-less branch counts as short
+   for every l ≥ −1 (model: `selLen`, theorem `absent_length_counts_as_short`).  The oracle does NOT
+   promote that reading to the specification: it accepts both.
+   * `definite`: the criterion holds under every reading (a PRESENT length ≤ l; the other criteria);
+   * `ambiguous`: it holds only under the sentinel reading (absent length and −1 ≤ l).
+   `Crit.holds` (the code's reading) is their disjunction (`holds_eq_definite_or_ambiguous`). -/
+def Crit.definite : Crit → Ent → Bool
+  | .len l, e => e.len != NIL && decide (e.len ≤ l)
+  | c, e => c.holds e
+
+def Crit.ambiguous : Crit → Ent → Bool
+  | .len l, e => e.len == NIL && decide (NIL ≤ l)
+  | _, _ => false
+
+/-- key of a tip branch whose length was set to 0 by `--tips` -/
+def Ent.key0 (e : Ent) : Key := ({ e with len := 0 } : Ent).key
+
+/-- MANDATORY after the operation, for one branch of the tree before: a tip branch (with length 0 if it
+    definitely meets the criterion and `--tips` is set; nothing is demanded of its length if that is
+    ambiguous), an inner branch that meets the criterion under no reading. -/
+def mandKey (crit : Crit) (rt : Bool) (e : Ent) : Option Key :=
+  if e.tip then
+    (if rt && crit.ambiguous e then none else some (if rt && crit.definite e then e.key0 else e.key))
+  else if crit.definite e || crit.ambiguous e then none else some e.key
+
+/-- OPTIONAL: may be there or not.  An inner branch that meets the criterion only under the sentinel
+    reading; a root branch of a rooted tree (PROTECTED) that meets it, where the property makes no claim
+    (the code keeps it unless `--root`); an ambiguous tip branch under `--tips`, with either length. -/
+def optKeys (crit : Crit) (rt : Bool) (e : Ent) : List Key :=
+  if e.tip then (if rt && crit.ambiguous e then [e.key0, e.key] else [])
+  else if crit.ambiguous e || (crit.definite e && e.prot) then [e.key] else []
+
 /-- The collapse post-condition.  `rt` = the documented `--tips` behaviour (a tip branch that
     meets the criterion gets length 0, nothing else happens to it).
     * no tip lost, none invented, root node untouched;
-    * every branch that is a tip or does not meet the criterion is still there with its
-      length, support and node name (MANDATORY);
-    * every inner branch that meets the criterion and is not PROTECTED is gone — also in trees with
-      single-child inner nodes (strict since fix 82ce8b8);
-    * a PROTECTED inner branch that meets the criterion may stay or go (OPTIONAL): the two root
-      branches of a rooted tree, where the property makes no claim (the code keeps them unless
-      `--root`);
+    * every MANDATORY branch is still there with its length, support and node name;
+    * every inner branch that DEFINITELY meets the criterion and is not PROTECTED is gone — also in
+      trees with single-child inner nodes (strict since fix 82ce8b8);
+    * OPTIONAL branches may stay or go;
     * nothing else exists afterwards. -/
 def collapseOK (crit : Crit) (rt : Bool) (b a : T) : Bool :=
   let all := b.tipNames
   let eb := ents all b
   let ea := ents all a
-  let mand := eb.filterMap fun e =>
-    if e.tip then some (if rt && crit.holds e then ({ e with len := 0 } : Ent).key else e.key)
-    else if crit.holds e then none else some e.key
-  let opt := eb.filterMap fun e =>
-    if !e.tip && crit.holds e && e.prot then some e.key else none
+  let mand := eb.filterMap (mandKey crit rt)
+  let opt := eb.flatMap (optKeys crit rt)
   sortS a.tipNames == sortS all
     && a.name == b.name
     && msub mand (ea.map Ent.key)
     && msub (mdiff (ea.map Ent.key) mand) opt
+
+/-- does some verdict rest on the sentinel reading: an inner branch (or, with `--tips`, a tip branch)
+    without length that the code's reading selects -/
+def usesAmbiguity (crit : Crit) (rt : Bool) (b : T) : Bool :=
+  (ents b.tipNames b).any fun e => crit.ambiguous e && (!e.tip || rt)
 
 /-- Which sub-clause fails (for the detail string). -/
 def collapseWhy (crit : Crit) (rt : Bool) (b a : T) : String :=
   let all := b.tipNames
   let eb := ents all b
   let ea := ents all a
-  let mand := eb.filterMap fun e =>
-    if e.tip then some (if rt && crit.holds e then ({ e with len := 0 } : Ent).key else e.key)
-    else if crit.holds e then none else some e.key
+  let mand := eb.filterMap (mandKey crit rt)
   if sortS a.tipNames != sortS all then "tip set changed"
   else if a.name != b.name then "root node changed"
   else if !(msub mand (ea.map Ent.key)) then "a branch that must stay (tip, or criterion not met) is missing or changed"
@@ -129,8 +163,9 @@ def deg3 (t : T) : Bool := decide (t.kids.length ≤ 3) && deg3L t.kids
 
 /-- The resolve post-condition:
     same tips, same root; every branch before is a branch after (split, length, support,
-    node name); what was added are inner branches of length 0 without support under
-    unnamed nodes; all tip-to-tip distances equal; and the result is binary whenever the
+    node name); what was added are inner branches of length 0 without support (the property says
+    nothing about the names of the new nodes: not demanded here; the model tie compares them);
+    all tip-to-tip distances equal; and the result is binary whenever the
     input had no single-child node and a root of degree ≥ 2; in every case (single-child nodes
     included) no node is left with more than three neighbours. -/
 def resolveOK (b a : T) : Bool :=
@@ -141,7 +176,7 @@ def resolveOK (b a : T) : Bool :=
     && a.name == b.name
     && msub kb ka
     && ((mdiff ((ents all a).map fun e => (e.key, e.tip)) ((ents all b).map fun e => (e.key, e.tip))).all
-          fun x => x.1.2.1 == 0 && x.1.2.2.1 == NIL && x.1.2.2.2 == "" && !x.2)
+          fun x => x.1.2.1 == 0 && x.1.2.2.1 == NIL && !x.2)
     && a.distMatrix == b.distMatrix
     && (!(b.noSingle && 2 ≤ b.kids.length) || a.binary)
     && deg3 a
@@ -156,7 +191,7 @@ def resolveWhy (b a : T) : String :=
   else if a.distMatrix != b.distMatrix then "a tip-to-tip distance changed"
   else if (b.noSingle && 2 ≤ b.kids.length) && !a.binary then "result is not binary"
   else if !(deg3 a) then "a node is left with more than three neighbours"
-  else "an added branch is not (inner, length 0, no support, unnamed node)"
+  else "an added branch is not (inner, length 0, no support)"
 
 /-- obs_C07 (DESIGN §4.2): split map with lengths/supports/node names, multiset of node
     names, distance matrix, binary?  Two trees are compared through this only. -/
